@@ -33,9 +33,35 @@ def sort_case(draw):
     sub = draw(st.lists(st.sampled_from(pool), min_size=npool, max_size=npool))
     n = draw(st.one_of(st.integers(0, 12), st.integers(27, 35), st.integers(57, 67), st.integers(0, 200), st.sampled_from([30, 31, 60, 61, 62, 120, 121])))
     keys = draw(st.lists(st.sampled_from(sub), min_size=n, max_size=n))
+    # structured orders: runs that are already ordered (either way, with ties), rotations, blocks - the shapes on which
+    # "already sorted" / "reverse sorted" shortcuts of a merge or partition step act
+    pattern = draw(st.sampled_from(["random", "random", "random", "nonincreasing", "nondecreasing", "rotated", "blocks", "sawtooth", "organ"]))
+    okey = (lambda k: repr(k)) if kind == "arr" else (lambda k: k)
+    if pattern == "nonincreasing":
+        keys = sorted(keys, key=okey, reverse=True)
+    elif pattern == "nondecreasing":
+        keys = sorted(keys, key=okey)
+    elif pattern == "rotated":
+        ks = sorted(keys, key=okey, reverse=draw(st.booleans()))
+        r = draw(st.integers(0, max(0, n - 1)))
+        keys = ks[r:] + ks[:r]
+    elif pattern == "blocks":
+        cuts = sorted(draw(st.lists(st.integers(0, n), max_size=4)))
+        out, prev = [], 0
+        for c in cuts + [n]:
+            out += sorted(keys[prev:c], key=okey, reverse=draw(st.booleans()))
+            prev = c
+        keys = out
+    elif pattern == "sawtooth":
+        period = draw(st.integers(2, 9))
+        ks = sorted(keys, key=okey)
+        keys = [ks[(i % period) * max(1, n // period) % max(1, n)] if n else None for i in range(n)]
+    elif pattern == "organ":
+        ks = sorted(keys, key=okey)
+        keys = ks[::2] + ks[1::2][::-1]
     keyf = draw(st.sampled_from(["proj", "objproj"] + (["neg", "mod", "arr"] if kind == "num" else [])))
     tagged = draw(st.booleans())
-    return {"kind": kind, "keys": keys, "keyf": keyf, "tagged": tagged}
+    return {"kind": kind, "keys": keys, "keyf": keyf, "tagged": tagged, "pattern": pattern}
 
 
 def keysrc(kind, k):
@@ -124,7 +150,7 @@ def check_sort(case):
             raise Violation("wrong:" + e.split("(")[0], f"{e[:400]} = {V.show(got)[:300]}, expected {V.show(T(exp))[:300]}")
     n = len(keys)
     dup = len(set(map(repr, (kf(e) for e in elems)))) < n
-    return {"nontrivial": n > 30 and dup, "labels": [f"len{'>60' if n > 60 else '>30' if n > 30 else '<=30'}", keyf if tagged else "identity"],
+    return {"nontrivial": n > 30 and dup, "labels": [f"len{'>60' if n > 60 else '>30' if n > 30 else '<=30'}", keyf if tagged else "identity", "order:" + case.get("pattern", "random")],
             "sample": {"kind": kind, "n": n, "keyf": keyf, "tagged": tagged, "keys": [repr(k) for k in keys[:8]]}}
 
 
